@@ -75,6 +75,7 @@ class Sharing:
         self.mutated = set()
         self.listed = {}   # dir -> set(aid)
         self.entries = {}  # dir -> set(aid) creating/removing entries
+        self.removed = {}  # dir or file -> set(aid) removing / renaming it
         self.frozen = None
         self.grew = False
 
@@ -82,7 +83,8 @@ class Sharing:
         self.frozen = (
             {p: set(a) for p, a in self.touch.items()}, set(self.mutated),
             {p: set(a) for p, a in self.listed.items()},
-            {p: set(a) for p, a in self.entries.items()})
+            {p: set(a) for p, a in self.entries.items()},
+            {p: set(a) for p, a in self.removed.items()})
         self.grew = False
 
     def _add(self, table, key, aid):
@@ -100,6 +102,8 @@ class Sharing:
                     self.grew = True
         if kind == "list":
             self._add(self.listed, rel, aid)
+        if kind in ("rmdir", "rename") and rel:
+            self._add(self.removed, rel, aid)
         if entry:
             for p in (rel, dst):
                 if p:
@@ -108,10 +112,22 @@ class Sharing:
     def visible(self, aid, kind, rel, dst, mut, entry):
         if self.frozen is None:
             return True
-        touch, mutated, listed, entries = self.frozen
+        touch, mutated, listed, entries, removed = self.frozen
         for p in (rel, dst):
             if p and p in mutated and (touch.get(p, set()) - {aid}):
                 return True
+        # a directory that another actor removes / renames vs anything done
+        # below it; and removing / renaming a directory in which another
+        # actor creates or removes entries
+        for p in (rel, dst):
+            q = os.path.dirname(p) if p else ""
+            while q:
+                if removed.get(q, set()) - {aid}:
+                    return True
+                q = os.path.dirname(q)
+        if kind in ("rmdir", "rename") and rel and (
+                entries.get(rel, set()) - {aid}):
+            return True
         if entry:
             for p in (rel, dst):
                 if p and (listed.get(os.path.dirname(p), set()) - {aid}):
@@ -121,47 +137,54 @@ class Sharing:
         return False
 
     def export(self):
-        t, m, l, e = self.frozen
+        t, m, l, e, r = self.frozen
         return {"touch": {p: sorted(a) for p, a in t.items()},
                 "mutated": sorted(m),
                 "listed": {p: sorted(a) for p, a in l.items()},
-                "entries": {p: sorted(a) for p, a in e.items()}}
+                "entries": {p: sorted(a) for p, a in e.items()},
+                "removed": {p: sorted(a) for p, a in r.items()}}
 
     def load(self, d):
         self.frozen = ({p: set(a) for p, a in d["touch"].items()},
                        set(d["mutated"]),
                        {p: set(a) for p, a in d["listed"].items()},
-                       {p: set(a) for p, a in d["entries"].items()})
+                       {p: set(a) for p, a in d["entries"].items()},
+                       {p: set(a) for p, a in d.get("removed", {}).items()})
 
     def export_all(self):
         return {"touch": {p: sorted(a) for p, a in self.touch.items()},
                 "mutated": sorted(self.mutated),
                 "listed": {p: sorted(a) for p, a in self.listed.items()},
-                "entries": {p: sorted(a) for p, a in self.entries.items()}}
+                "entries": {p: sorted(a) for p, a in self.entries.items()},
+                "removed": {p: sorted(a) for p, a in self.removed.items()}}
 
     def load_all(self, d):
         self.touch = {p: set(a) for p, a in d["touch"].items()}
         self.mutated = set(d["mutated"])
         self.listed = {p: set(a) for p, a in d["listed"].items()}
         self.entries = {p: set(a) for p, a in d["entries"].items()}
+        self.removed = {p: set(a) for p, a in d.get("removed", {}).items()}
 
     @staticmethod
     def merge(tables):
-        out = {"touch": {}, "mutated": set(), "listed": {}, "entries": {}}
+        out = {"touch": {}, "mutated": set(), "listed": {}, "entries": {},
+               "removed": {}}
         for t in tables:
             out["mutated"] |= set(t["mutated"])
-            for k in ("touch", "listed", "entries"):
-                for p, a in t[k].items():
+            for k in ("touch", "listed", "entries", "removed"):
+                for p, a in t.get(k, {}).items():
                     out[k].setdefault(p, set()).update(a)
         return {"touch": {p: sorted(a) for p, a in out["touch"].items()},
                 "mutated": sorted(out["mutated"]),
                 "listed": {p: sorted(a) for p, a in out["listed"].items()},
-                "entries": {p: sorted(a) for p, a in out["entries"].items()}}
+                "entries": {p: sorted(a) for p, a in out["entries"].items()},
+                "removed": {p: sorted(a) for p, a in out["removed"].items()}}
 
     def size(self):
         return (len(self.touch), len(self.mutated),
                 sum(len(v) for v in self.listed.values()),
-                sum(len(v) for v in self.entries.values()))
+                sum(len(v) for v in self.entries.values()),
+                sum(len(v) for v in self.removed.values()))
 
 
 class Actor:
